@@ -9,6 +9,7 @@ package memberlist
 import (
 	"bytes"
 	"net"
+	"sync/atomic"
 	"time"
 
 	"github.com/google/btree"
@@ -502,6 +503,51 @@ func VerifWithNodeLock(m *Memberlist, f func()) {
 	defer m.nodeLock.Unlock()
 	f()
 }
+
+// VerifProbeCh holds the channels a probe registers for its sequence number.
+type VerifProbeCh struct {
+	ackCh  chan ackMessage
+	nackCh chan struct{}
+}
+
+// Drain reports what arrived on the channels since the last call: acks (complete), timeouts, nacks.
+func (p *VerifProbeCh) Drain() (acks, timeouts, nacks int) {
+	for {
+		select {
+		case a := <-p.ackCh:
+			if a.Complete {
+				acks++
+			} else {
+				timeouts++
+			}
+		case <-p.nackCh:
+			nacks++
+		default:
+			return
+		}
+	}
+}
+
+// VerifSetProbeChannels registers probe channels under seqNo exactly as probeNode does.
+func VerifSetProbeChannels(m *Memberlist, seqNo uint32, timeout time.Duration) *VerifProbeCh {
+	p := &VerifProbeCh{ackCh: make(chan ackMessage, 8), nackCh: make(chan struct{}, 8)}
+	m.setProbeChannels(seqNo, p.ackCh, p.nackCh, timeout)
+	return p
+}
+
+// VerifSetAckHandler registers an ack function under seqNo as handleIndirectPing does; the returned
+// counter counts its invocations.
+func VerifSetAckHandler(m *Memberlist, seqNo uint32, timeout time.Duration) *int32 {
+	var n int32
+	m.setAckHandler(seqNo, func([]byte, time.Time) { atomic.AddInt32(&n, 1) }, timeout)
+	return &n
+}
+
+// VerifInvokeAck / VerifInvokeNack deliver an ack / nack for seqNo to the pending-handler table.
+func VerifInvokeAck(m *Memberlist, seqNo uint32) {
+	m.invokeAckHandler(ackResp{SeqNo: seqNo}, time.Now())
+}
+func VerifInvokeNack(m *Memberlist, seqNo uint32) { m.invokeNackHandler(nackResp{SeqNo: seqNo}) }
 
 // VerifEncodeUserMsgHeader encodes a userMsgHeader with an arbitrary declared length.
 func VerifEncodeUserMsgHeader(n int) []byte {
